@@ -137,8 +137,46 @@ impl TextCorpus {
         // Prefer small and medium files: keep cost per case bounded.
         let bi = if self.files[bi].1.len() > 30_000 && rng.chance(3, 4) { rng.below(n) } else { bi };
         let base = self.files[bi].1.clone();
-        let kind = rng.below(17);
+        let kind = rng.below(19);
         let (name, text): (&'static str, String) = match kind {
+            17 | 18 => {
+                // Re-roll the kinds of whitespace: runs of spaces / tabs / carriage returns /
+                // line feeds of mixed content, often of the same width as a neighbouring run.
+                let toks = self.tokens(bi).clone();
+                let mut out = String::with_capacity(base.len() + 16);
+                let mut prev = 0usize;
+                let dense = rng.bool();
+                for (a, b) in toks {
+                    let gap = &base[prev..a];
+                    if !gap.is_empty() && gap.chars().all(|c| c.is_whitespace()) && (dense || rng.chance(1, 6)) {
+                        let width = match rng.below(4) {
+                            0 => gap.len(),
+                            1 => 1,
+                            2 => 4,
+                            _ => 1 + rng.below(6),
+                        };
+                        // A line comment before the gap needs its newline.
+                        let keep_newline = gap.contains('\n');
+                        for i in 0..width {
+                            out.push(match rng.below(8) {
+                                0..=2 => ' ',
+                                3..=5 => '\t',
+                                6 => '\r',
+                                _ => if i == 0 { ' ' } else { '\n' },
+                            });
+                        }
+                        if keep_newline {
+                            out.push('\n');
+                        }
+                    } else {
+                        out.push_str(gap);
+                    }
+                    out.push_str(&base[a..b]);
+                    prev = b;
+                }
+                out.push_str(&base[prev..]);
+                ("whitespace-reroll", out)
+            }
             0 => {
                 // Delete a char range.
                 let a = floor_char(&base, rng.below(base.len() + 1));
